@@ -243,7 +243,7 @@ void usePrt(Ctx& ctx, const ArtFile& a, const std::string& desc, const std::stri
 	static const char* pixelFiles[] = { "empty.bmp", "short.bmp", "exact.bmp" };
 	auto shared = std::make_shared<ArtFile>(a);
 	std::size_t n = a.imageMetas.size();
-	std::set<std::size_t> idx = { 0, 1, n, n + 1, SIZE_MAX };
+	std::set<std::size_t> idx = { 0, 1, n, n + 1, SIZE_MAX, std::size_t(1) << 32, (std::size_t(1) << 32) + 1, (std::size_t(1) << 32) + n, std::size_t(1) << 63 };   // incl. indices that are in range only modulo 2^32
 	for (std::size_t i = 0; i < n && i < 6; ++i) idx.insert(i);
 	if (n) idx.insert(n - 1);
 	for (auto pf : pixelFiles) for (auto i : idx) {
